@@ -435,6 +435,10 @@ func init() {
 			if tier == "thorough" && r.chance(1, 2) {
 				d = 6
 			}
+			if i%8 == 7 {
+				emit(evalPayload(-1, "-", []string{"x", "z", "q"}, scopeScenario(r)))
+				continue
+			}
 			ast, names := g.program(d)
 			emit(evalPayload(-1, "-", names, ast))
 		}
